@@ -36,3 +36,38 @@ contract("gherkin.errors.CompositeParserException.__init__",
              clause("message", lambda self, errors: self.args[0] == "Parser errors:\n" + join_lf([e.args[0] for e in errors]),
                     serves=["C14"]),
          ])
+
+contract("gherkin.token.Token.token_value",
+         args=dict(self="Token"), variants=[dict(self="Token"), dict(self="TokenEOF")], returns=Str,
+         ensures=[clause("value", lambda self, result: result == ("EOF" if is_eof_token(self) else self.line._trimmed_line_text),
+                         serves=["C14", "C16"])])
+
+# an unexpected line: "expected: <kinds joined by ', '>, got '<the line, trimmed on both sides>'" at the token's own
+# column, or -- for a token that no matcher has located -- at the column of its first non-blank character
+contract("gherkin.errors.UnexpectedTokenException.__init__",
+         args=dict(self=Raw("UnexpectedTokenException"), received_token="Token", expected_token_types=ListOf(Str),
+                   state_comment=Str),
+         returns=NoneT, modifies=["self.*"],
+         ensures=[
+             clause("message", lambda self, received_token, expected_token_types: self.args[0] == error_message(
+                 received_token.location["line"],
+                 (received_token.location["column"] if ("column" in received_token.location
+                                                        and received_token.location["column"] != 0)
+                  else received_token.line.indent + 1),
+                 "expected: " + join_sep(", ", expected_token_types) + ", got '"
+                 + strip(received_token.line._trimmed_line_text) + "'"), serves=["C14", "C16", "C04"]),
+             clause("line", lambda self, received_token: self.location["line"] == received_token.location["line"]
+                    and "column" in self.location, serves=["C14", "C04"]),
+         ])
+
+contract("gherkin.errors.UnexpectedEOFException.__init__",
+         args=dict(self=Raw("UnexpectedEOFException"), received_token="TokenEOF", expected_token_types=ListOf(Str),
+                   state_comment=Str),
+         returns=NoneT, modifies=["self.*"],
+         ensures=[
+             clause("message", lambda self, received_token, expected_token_types: self.args[0] == error_message(
+                 received_token.location["line"],
+                 (received_token.location["column"] if "column" in received_token.location else 0),
+                 "unexpected end of file, expected: " + join_sep(", ", expected_token_types)), serves=["C14", "C04"]),
+             clause("location", lambda self, received_token: self.location is received_token.location, serves=["C14", "C04"]),
+         ])
